@@ -78,12 +78,9 @@ Definition bstore_offset (b : bstore) (off size : Z) : bstore :=
   | Some (o, l) => Some (o + off, if l <? off then 0 else Z.min size (l - off))
   end.
 
-(* ByteOrderer::SizeInBytes: the Null orderer reports 1 for every non-null buffer *)
-Definition orderer_size (bo : border) (b : bstore) : Z :=
-  match bo with
-  | NullBO => if bstore_ok b then 1 else 0
-  | _ => bstore_size b
-  end.
+(* ByteOrderer::SizeInBytes: the size of the underlying buffer, for every orderer (the Null orderer
+   reported 1 for every non-null buffer until fix c90547c) *)
+Definition orderer_size (bo : border) (b : bstore) : Z := bstore_size b.
 
 (* BitBlock<Orderer<ContiguousBuffer>, nbits>::Ok *)
 Definition bitblock_ok (b : bstore) (bo : border) (nbits : Z) : bool :=
